@@ -8,16 +8,20 @@ const char *MC_PROPERTY = "C16";
 const char *MC_RULE =
     "set(origin, k, pattern): a cell set built from the geometric ball of radius k around origin (patterns: 0 full disk, 1 centre removed "
     "(hole), 2 outer ring + centre (island in a hole), 3 alternate cells removed, 4 two disjoint disks, 5 disk minus one ring-1 cell, 6 "
-    "annulus k-1..k, 7 single ring-k cells only (many components)), skipped when the ball of radius k+1 contains a polar cell. "
+    "annulus k-1..k, 7 single ring-k cells only (many components), 8 nested donuts (rings 1 and 3), 9 nested donuts + isolated cells on rings 5 and 7, "
+    "10 rings 0,2,4), skipped when the ball of radius k+1 contains a polar cell. "
     "cellsToLinkedMultiPolygon must succeed; polygons == edge-connected components of the set on G_geo; in every polygon the first loop "
     "has positive signed area and the others negative (fan area in a gnomonic chart about the origin); every loop has >= 3 vertices, "
     "each within 1e-12 rad of a boundary vertex of an input cell; sum of loop areas == sum of the cells' boundary fan areas within "
     "max(1e-9, 100*eps/edge) relative; after destroyLinkedMultiPolygon the allocator ledger is empty with no double/foreign free; on an "
-    "error return nothing is left allocated. Non-trivial: set with a hole, several components or a pentagon.";
+    "error return nothing is left allocated; every loop of a polygon outlines cells of one and the same component (owner of its first vertex) "
+    "and per component the loops outlining it enclose the area of its cells. polar(origin,k,pattern): disks/rings/perforated disks around "
+    "and next to the two pole cells (success not required): on an error return the ledger must be empty, on success destroy must empty "
+    "it. Non-trivial: set with a hole, several components or a pentagon.";
 const char *MC_ASSUME[] = {"G_geo for components; ledger allocator through H3_ALLOC_PREFIX", NULL};
-const char *MC_CTR_NAMES[] = {"sets", "skipped_polar", "oracle_unavailable", "sets_with_holes", "multi_component_sets", "loops_checked", NULL};
+const char *MC_CTR_NAMES[] = {"sets", "skipped_polar", "oracle_unavailable", "sets_with_holes", "multi_component_sets", "loops_checked", "polar_sets_error", "polar_sets_success", NULL};
 const char *MC_MAX_NAMES[] = {"area_rel_diff", "vertex_offset_rad", NULL};
-enum { OP_SET };
+enum { OP_SET, OP_POLAR };
 static OGraph G;
 static int G_init;
 #define MAXS 512
@@ -39,7 +43,7 @@ static void op_set(const McArg *a) {
     static int bd[4096];
     if (!G_init) og_init(&G, 1 << 16), G_init = 1;
     if (G.n > 2000000) og_clear(&G);
-    int R = pat == 4 ? 3 * k + 3 : k + 1;
+    int R = pat == 4 ? 3 * k + 3 : pat == 9 ? 8 : k + 1;
     int n = og_ball(&G, origin, R, bc, bd, 4096);
     if (n < 0) {
         mc_ctr(2, 1);
@@ -58,7 +62,7 @@ static void op_set(const McArg *a) {
             if (bd[i] == 2 * k + 2) far = bc[i];
     for (int i = 0; i < n && ns < MAXS; i++) {
         int d = bd[i], keep = 0;
-        if (d > k) continue;
+        if (d > (pat == 9 ? 7 : k)) continue;
         switch (pat) {
             case 0: keep = 1; break;
             case 1: keep = d != 0; break;
@@ -68,6 +72,9 @@ static void op_set(const McArg *a) {
             case 5: keep = !(d == 1 && i == 1); break;
             case 6: keep = d >= k - 1 && k >= 2; break;
             case 7: keep = d == k && (i % 2 == 0) && k >= 1; break;
+            case 8: keep = (d == 1 || d == 3) && k >= 3; break;                                         // nested donuts
+            case 9: keep = d == 1 || d == 3 || ((d == 5 || d == 7) && i % 3 == 0); break;               // nested donuts + scattered isolated cells
+            case 10: keep = d == 0 || d == 2 || d == 4; if (k < 4) keep = 0; break;                      // island in a donut hole in a donut hole
         }
         if (keep) set[ns++] = bc[i];
     }
@@ -109,6 +116,10 @@ static void op_set(const McArg *a) {
     cellToLatLng(origin, &c0);
     double cellA = 0;
     static LatLng pool[MAXS * 10];
+    static int powner[MAXS * 10];
+    double compA[MAXS], loopAc[MAXS];
+    memset(compA, 0, sizeof compA);
+    memset(loopAc, 0, sizeof loopAc);
     int npool = 0;
     for (int i = 0; i < ns; i++) {
         LatLng c;
@@ -117,8 +128,10 @@ static void op_set(const McArg *a) {
             mc_ctr(2, 1);
             return;
         }
-        cellA += fanArea(c, cb.verts, cb.numVerts);
-        for (int q = 0; q < cb.numVerts; q++) pool[npool++] = cb.verts[q];
+        double ca = fanArea(c, cb.verts, cb.numVerts);
+        cellA += ca;
+        compA[comp[i]] += ca;
+        for (int q = 0; q < cb.numVerts; q++) powner[npool] = i, pool[npool++] = cb.verts[q];
     }
     lg_reset();
     lg_arm(0, 0, 0);
@@ -141,7 +154,7 @@ static void op_set(const McArg *a) {
             break;
         }
         npoly++;
-        int li = 0;
+        int li = 0, pcomp = -1;
         for (LinkedGeoLoop *l = p->first; l && !mc_w->cur_failed; l = l->next, li++) {
             static LatLng v[8192];
             int nv = 0;
@@ -151,13 +164,16 @@ static void op_set(const McArg *a) {
                 mc_fail("polygon %d loop %d has %d vertices", npoly - 1, li, nv);
                 break;
             }
+            int lcomp = -1;
             for (int i = 0; i < nv; i++) {
                 double best = 1e9;
+                int bq = -1;
                 for (int q = 0; q < npool; q++) {
                     if (fabs(pool[q].lat - v[i].lat) > 1e-9) continue;
                     double d = adist(pool[q], v[i]);
-                    if (d < best) best = d;
+                    if (d < best) best = d, bq = q;
                 }
+                if (i == 0 && bq >= 0) lcomp = comp[powner[bq]];
                 mc_max(1, best < 1e8 ? best : 0);
                 if (best > 1e-12) {
                     mc_fail("polygon %d loop %d vertex %d (%.15g,%.15g) is not a boundary vertex of any input cell (nearest %.3g rad)", npoly - 1, li, i, v[i].lat, v[i].lng, best);
@@ -180,6 +196,14 @@ static void op_set(const McArg *a) {
                     prev = cur;
                 }
             }
+            // every loop of a polygon must outline cells of one and the same edge-connected component (a corner is shared only by
+            // mutually adjacent cells, so the owner of the loop's first vertex identifies the component)
+            if (lcomp >= 0) {
+                loopAc[lcomp] += A;
+                if (li == 0) pcomp = lcomp;
+                if (li > 0 && pcomp >= 0 && lcomp != pcomp)
+                    mc_fail("polygon %d: hole %d outlines cells of a different component than the polygon's outer loop (the hole belongs to another polygon)", npoly - 1, li);
+            }
             if (li == 0 && !(A > 0)) mc_fail("polygon %d: outer loop is not counter-clockwise (signed area %.3g)", npoly - 1, A);
             if (li > 0) {
                 nholes++;
@@ -195,12 +219,58 @@ static void op_set(const McArg *a) {
         double rel = fabs(polyA - cellA) / cellA, tol = fmax(1e-9, 100 * 2.2e-16 / (1.1 / pow(sqrt(7.0), res) * 0.4));
         mc_max(0, rel);
         if (rel > tol) mc_fail("enclosed area %.17g differs from the sum of the cells' areas %.17g (rel %.3g, tol %.3g; %d cells, %d polygons, %d holes)", polyA, cellA, rel, tol, ns, npoly, nholes);
+        for (int i = 0; i < ns && !mc_w->cur_failed; i++)
+            if (comp[i] == i && fabs(loopAc[i] - compA[i]) / cellA > tol)
+                mc_fail("component of cell %" PRIx64 ": loops outlining it enclose %.17g, its cells have area %.17g (whole set balanced: %d polygons, %d holes)", set[i], loopAc[i], compA[i], npoly, nholes);
     }
     destroyLinkedMultiPolygon(&out);
     if (!mc_w->cur_failed && (lg_live || lg_errors)) mc_fail("after destroyLinkedMultiPolygon %ld blocks remain allocated, %ld double/foreign frees", lg_live, lg_errors);
 }
-const McOp MC_OPS[] = {{"set", "hii", op_set}};
-const int MC_NOPS = 1;
+// sets whose footprint reaches or encloses a pole: the property does not require success there, but its last clause still holds:
+// "when the function reports an error nothing is left allocated" (and a success must be destroyable without a leak)
+static void op_polar(const McArg *a) {
+    uint64_t origin = a[0].u;
+    int k = (int)a[1].i, pat = (int)a[2].i;
+    static uint64_t bc[4096];
+    static int bd[4096];
+    if (!G_init) og_init(&G, 1 << 16), G_init = 1;
+    int n = og_ball(&G, origin, k, bc, bd, 4096);
+    if (n < 0) {
+        mc_ctr(2, 1);
+        return;
+    }
+    uint64_t set[MAXS];
+    int ns = 0;
+    for (int i = 0; i < n && ns < MAXS; i++) {
+        int d = bd[i], keep = 1;
+        switch (pat) {
+            case 0: keep = 1; break;
+            case 1: keep = d != 0; break;
+            case 2: keep = d != 0 && !(d == k - 1 && i % 3 == 0); break;
+            case 3: keep = d == k; break;
+            case 4: keep = d == k || d == k - 2; break;
+            case 5: keep = d != 0 && !(d == k - 1 && i % 2 == 0) && !(d == k - 3); break;
+        }
+        if (keep) set[ns++] = bc[i];
+    }
+    if (!ns) return;
+    lg_reset();
+    lg_arm(0, 0, 0);
+    LinkedGeoPolygon out;
+    memset(&out, 0, sizeof out);
+    mc_trans(1);
+    H3Error e = cellsToLinkedMultiPolygon(set, ns, &out);
+    mc_ctr(e ? 6 : 7, 1);
+    if (e) {
+        mc_nontrivial();
+        if (lg_live || lg_errors) mc_fail("cellsToLinkedMultiPolygon returned error %d and left %ld blocks allocated (%ld double/foreign frees); %d cells around a pole", e, lg_live, lg_errors, ns);
+        return;
+    }
+    destroyLinkedMultiPolygon(&out);
+    if (lg_live || lg_errors) mc_fail("after destroyLinkedMultiPolygon %ld blocks remain allocated, %ld double/foreign frees (%d cells around a pole)", lg_live, lg_errors, ns);
+}
+const McOp MC_OPS[] = {{"set", "hii", op_set}, {"polar", "hii", op_polar}};
+const int MC_NOPS = 2;
 static U64Vec g_dom;
 static int g_kmax;
 static void ph_sets(void *u) {
@@ -211,16 +281,37 @@ static void ph_sets(void *u) {
         int res = spec_res(h), kmax = res == 0 ? 1 : res == 1 ? 2 : g_kmax;
         mc_states(1);
         for (int k = 0; k <= kmax; k++)
-            for (int pat = 0; pat < 8; pat++) {
+            for (int pat = 0; pat <= 10; pat++) {
                 if (k == 0 && pat) continue;
                 if (pat == 4 && res < 2) continue;
+                if ((pat == 8 || pat == 9) && (k != 3 || res < 2)) continue;
+                if (pat == 10 && (k != 4 || res < 2)) continue;
                 MC_RUN(OP_SET, H(h), I(k), I(pat));
             }
     }
 }
+static void ph_polar(void *u) {
+    uint64_t idx = 0;
+    for (int res = 0; res <= (mc_thorough ? 15 : 9); res++)
+        for (int pole = 0; pole < 2; pole++) {
+            LatLng g = {pole ? -M_PI / 2 : M_PI / 2, 0.3};
+            uint64_t h = 0;
+            if (latLngToCell(&g, res, &h)) continue;
+            for (int k = 1; k <= (res == 0 ? 2 : res == 1 ? 4 : 6); k++)
+                for (int pat = 0; pat <= 5; pat++, idx++) {
+                    if (!mc_mine(idx)) continue;
+                    MC_RUN(OP_POLAR, H(h), I(k), I(pat));
+                    // and the same patterns centred one and two steps away from the pole cell
+                    uint64_t nb[8];
+                    if (!G_init) og_init(&G, 1 << 16), G_init = 1;
+                    int m = og_nbrs(&G, h, nb);
+                    for (int q = 0; q < m; q += 2) MC_RUN(OP_POLAR, H(nb[q]), I(k), I(pat));
+                }
+        }
+}
 int main(int argc, char **argv) {
     mc_init(argc, argv);
-    g_kmax = mc_thorough ? 4 : 3;
+    g_kmax = mc_thorough ? 4 : 3;  // pattern 10 needs k = 4: thorough only
     for (int r = 0; r <= 15; r++) {
         U64Vec f = {0};
         if (r <= 1)
@@ -230,7 +321,8 @@ int main(int argc, char **argv) {
         for (size_t i = 0; i < f.n; i += (r <= 1 || mc_thorough ? 1 : 5)) uv_push(&g_dom, f.v[i]);
         uv_free(&f);
     }
-    snprintf(mc_bounds, sizeof mc_bounds, "origins: FULL(0..1) + FINE level 2 (%s) at resolutions 2..15 = %zu origins; k<=%d (1 at res 0, 2 at res 1); 8 patterns", mc_thorough ? "all" : "every 5th", g_dom.n, g_kmax);
+    snprintf(mc_bounds, sizeof mc_bounds, "origins: FULL(0..1) + FINE level 2 (%s) at resolutions 2..15 = %zu origins; k<=%d (1 at res 0, 2 at res 1); 11 patterns (full, centre removed, island in hole, alternate, two disks, one neighbour removed, thick ring, scattered ring, nested donuts, nested donuts + isolated cells, triple nesting)", mc_thorough ? "all" : "every 5th", g_dom.n, g_kmax);
     mc_phase("set catalogue", ph_sets, NULL);
+    mc_phase("sets around the poles (error clause)", ph_polar, NULL);
     return mc_finish();
 }
